@@ -689,7 +689,7 @@ func fntGenString(r *Rand, alpha []string, n int) string {
 func runFntE2E(c *Ctx) {
 	fntInitKinds()
 	r := c.R.Fork()
-	n := 400
+	n := 340
 	if c.Thorough {
 		n = 4000
 	}
